@@ -94,6 +94,7 @@ func (cache *TxCache) evictLeastLikelyToSelectTransactions() *evictionJournal {
 		bunches = append(bunches, bunch)
 	}
 
+	verifPause("txcache.evict.afterSnapshot")
 	journal := &evictionJournal{}
 
 	// Heap is reused among passes.
@@ -157,6 +158,7 @@ func (cache *TxCache) evictLeastLikelyToSelectTransactions() *evictionJournal {
 			_ = cache.txByHash.RemoveTxsBulk(removedHashes)
 		}
 
+		verifPause("txcache.evict.betweenIndexes")
 		// Remove those transactions from "txByHash".
 		_ = cache.txByHash.RemoveTxsBulk(transactionsToEvictHashes)
 
